@@ -308,6 +308,9 @@ func c14Run(c *c14Cell) (d c14Detail) {
 	setFormat(root.SetLevel(level))
 	var base slog.Logger = root
 	if c.Kind == "child" || c.Kind == "defchild" {
+		// the parent already carries a skip count of its own when the child is made (a wrapper type
+		// around the parent logger): a child starts with none, whatever its parent has
+		root.SetSkip(1 + c14Serial%3)
 		kid := root.New("kid")
 		setFormat(kid.SetLevel(level))
 		base = kid
